@@ -140,6 +140,9 @@ class CallMixin(object):
         sv = extra[0]
         if isinstance(sv, V) and sv.ty.k == 'tuple':
           args = args + list(sv.items)
+        elif isinstance(sv, V) and sv.ty.k == 'list' and z3.is_int_value(z3.simplify(self.list_len(st1, sv))):
+          n = z3.simplify(self.list_len(st1, sv)).as_long()
+          args = args + [self.list_get(st1, sv, z3.IntVal(i)) for i in range(n)]
         else:
           kwargs['*'] = sv
         extra = extra[1:]
@@ -156,6 +159,14 @@ class CallMixin(object):
         return self.call_builtin(st, cx, callee.name, args, kwargs, node)
       if k == 'method':
         return self.call_method(st, cx, callee.recv, callee.name, args, kwargs, node)
+      if k == 'stream':
+        return self.stream_method(st, cx, callee.recv, callee.name, args, node)
+      if k == 'structm':
+        if callee.name == 'pack':
+          return self.struct_pack(st, cx, callee.recv.py, list(args), node)
+        if callee.name == 'unpack':
+          return self.struct_unpack(st, cx, callee.recv.py, args[0], node)
+        raise Unsupported('Struct.%s' % callee.name)
       if k == 'dictlike':
         return self.dl_method(st, cx, callee.recv, callee.name, args, node)
       if k == 'pred':
@@ -188,6 +199,25 @@ class CallMixin(object):
       return self.call_repo(st, cx, callee, list(args), kwargs, node)
     if isinstance(callee, VModule):
       short = callee.name.split('.')[-1]
+      if short == 'BytesIO' and not args:
+        return iter([(st, self.new_buffer(st))])
+      if short == 'BytesIO' and len(args) == 1 and isinstance(args[0], V) and args[0].ty.k == 'bytes':
+        v = self.new_buffer(st, args[0].py)
+        st.bufs[self.buf_key(v)]['reading'] = True
+        return iter([(st, v)])
+      if short == 'pack' and args:
+        return self.struct_pack(st, cx, self.fmt_of(args[0]), list(args[1:]), node)
+      if short == 'unpack' and len(args) == 2:
+        return self.struct_unpack(st, cx, self.fmt_of(args[0]), args[1], node)
+      if short == 'Struct' and len(args) == 1:
+        from .bytesalg import FmtTemplate
+        return iter([(st, V(Ty('structfmt'), py=self.fmt_of(args[0])))])
+      if short == 'calcsize' and len(args) == 1:
+        from .bytesalg import CODES
+        n = 0
+        for code, count in self.fmt_of(args[0]).fields():
+          n += CODES[code][0] * count
+        return iter([(st, mk_int(n))])
       ty = getattr(node, '_pyvc_type', None) if node is not None else None
       if short == 'deque' and not args and ty is not None and ty.k == 'deque':
         r = self.new_ref(st)
@@ -382,6 +412,17 @@ class CallMixin(object):
     self.old_stack.append((snap, dict(params)))
     try:
       for e in spec.ensures:
+        t = self.parse_spec(e)
+        if (spec.returns is not None and spec.returns.k == 'bytes' and isinstance(t, ast.Call) and isinstance(t.func, ast.Name)
+            and t.func.id == 'beq' and isinstance(t.args[0], ast.Name) and t.args[0].id == 'result'):
+          # a byte-string result defined by its contract: take the defining expression as the value
+          self.spec_depth += 1
+          try:
+            res = self.ev1(t.args[1], st, scx)
+          finally:
+            self.spec_depth -= 1
+          st.frames[fid]['result'] = res
+          continue
         st.assume(self.spec_bool(st, scx, e))
       if spec.conc:
         # the callee establishes the shared-state invariant at its exit and its guarantee over
@@ -504,6 +545,16 @@ class CallMixin(object):
       st.choices.append((ex.name, res))
       if cx.chain and cx.chain[0] in st.frames:
         st.frames[cx.chain[0]]['_last_result'] = res    # visible to ghost statements only
+    for pname, bexpr in ex.writes.items():
+      tgt = params.get(pname)
+      self.spec_depth += 1
+      try:
+        bv = self.ev1(self.parse_spec(bexpr), st, scx)
+      finally:
+        self.spec_depth -= 1
+      b = dict(self.buf_of(st, tgt))
+      b['data'] = list(b['data']) + list(bv.py)
+      st.bufs[self.buf_key(tgt)] = b
     self.old_stack.append((snap, dict(params)))
     try:
       for e in ex.ensures:
@@ -693,6 +744,9 @@ class CallMixin(object):
     raise Unsupported('not a set: %r' % (v,))
 
   def spec_fn(self, st, cx, name, args, node):
+    from .bytesalg import BYTE_SPEC_FNS
+    if name in BYTE_SPEC_FNS:
+      return self.bytes_spec_fn(st, cx, name, args, node)
     if name == 'implies':
       return V(BOOL, z3.Implies(self.truth(st, args[0]), self.truth(st, args[1])))
     if name == 'iff':
